@@ -173,16 +173,21 @@ var c08Devs = c08Deviations()
 
 func c08Scenarios(tier mc.Tier) []mc.Scenario {
 	var out []mc.Scenario
-	keys := []string{"p256-e"}
-	if tier == mc.Thorough {
-		keys = []string{"p256-e", "p384-c", "p521-a", "rsa2048-b", "rsa3072-a", "rsa4096-a"}
-	}
+	keys := []string{"p256-e", "p384-c", "p521-a", "rsa2048-b", "rsa3072-a", "rsa4096-a"}
 	for _, media := range []string{envenc.MediaJWS, envenc.MediaCOSE} {
 		for _, k := range keys {
 			media, k := media, k
 			bound := 2
 			if k != "p256-e" {
 				bound = 1
+			}
+			if tier == mc.Thorough {
+				// triples on P-256, pairs on RSA-2048
+				if k == "p256-e" {
+					bound = 3
+				} else if k == "rsa2048-b" {
+					bound = 2
+				}
 			}
 			out = append(out, mc.Scenario{Name: fmt.Sprintf("C08-%s-%s", mediaShort(media), kindOf(k)), Bound: bound, Body: func(c *mc.Ctx) { c08Body(c, media, k) },
 				Params: map[string]string{"format": media, "key": k}})
@@ -264,7 +269,7 @@ func c08Body(c *mc.Ctx, media, keyName string) {
 	var names []string
 	used := map[string]bool{}
 	rest := devs
-	for round := 0; round < 2; round++ {
+	for round := 0; round < 3; round++ {
 		var cand []reqDev
 		for _, d := range rest {
 			if !used[d.slot] {
